@@ -690,23 +690,40 @@ def _spread_keys(f: Func, e: ast.AST) -> Optional[Set[str]]:
         return None
     keys: Set[str] = set()
     found = False
+    # `identity_d = identity_d__i` (what inlining a helper that returns the table leaves behind): the same table
+    names = {d}
+    binds1: Dict[str, List[ast.AST]] = {}
+    for n in own_nodes(f.node):
+        if isinstance(n, (ast.Assign, ast.AnnAssign)) and n.value is not None:
+            t = n.targets[0] if isinstance(n, ast.Assign) else n.target
+            if isinstance(t, ast.Name):
+                binds1.setdefault(t.id, []).append(n.value)
+    for _ in range(3):
+        for nm in list(names):
+            for v0 in binds1.get(nm, []):
+                if isinstance(v0, ast.Name):
+                    names.add(v0.id)
     for n in own_nodes(f.node):
         v = None
-        if isinstance(n, ast.Call) and isinstance(n.func, ast.Attribute) and n.func.attr == "setdefault" and src(n.func.value) == d and len(n.args) == 2:
+        if isinstance(n, ast.Call) and isinstance(n.func, ast.Attribute) and n.func.attr == "setdefault" and src(n.func.value) in names and len(n.args) == 2:
             v = n.args[1]
-        elif isinstance(n, ast.Assign) and isinstance(n.targets[0], ast.Subscript) and src(n.targets[0].value) == d:
+        elif isinstance(n, ast.Assign) and isinstance(n.targets[0], ast.Subscript) and src(n.targets[0].value) in names:
             v = n.value
         elif isinstance(n, (ast.Assign, ast.AnnAssign)) and n.value is not None:
             t = n.targets[0] if isinstance(n, ast.Assign) else n.target
-            if isinstance(t, ast.Name) and t.id == d:
+            if isinstance(t, ast.Name) and t.id in names:
                 if isinstance(n.value, ast.Dict) and not n.value.keys:
                     continue
                 if isinstance(n.value, ast.Call) and src(n.value.func) == "dict" and not n.value.args and not n.value.keywords:
+                    continue
+                if isinstance(n.value, ast.Name) and n.value.id in names:
                     continue
                 return None
         if v is None:
             continue
         found = True
+        if isinstance(v, ast.Name) and len(binds1.get(v.id, [])) == 1:
+            v = binds1[v.id][0]  # `identity = {...}` ... `table.setdefault(key, identity)`
         if isinstance(v, ast.Call) and src(v.func) == "dict" and not v.args and all(k.arg for k in v.keywords):
             keys |= {k.arg for k in v.keywords}
         elif isinstance(v, ast.Dict) and all(isinstance(k, ast.Constant) for k in v.keys):
@@ -744,6 +761,12 @@ def r05_6(ctx: Ctx, rep: Report) -> None:
         for f in cls.all_funcs():
             if f.kind in ("staticmethod", "classmethod"):
                 continue
+            if f.qualname == "Acl.group":
+                # a helper that returns (flat list, identity table) is read as part of group(): the keys of the identity
+                # records that are spread into the block constructor are then visible
+                from .c15 import _group_func
+
+                f = _group_func(ctx)
             for n in own_nodes(f.node):
                 if isinstance(n, ast.Call):
                     fn = n.func
